@@ -851,7 +851,7 @@ fn main() {
     driver::main(CheckDef {
         prop: "C06",
         level: "model_checking",
-        rule: "E3: every sequence up to the stated depth over 34 operations (get_or_create — also with an op closure that panics while the shard write lock is held, caught — / get / delete / retain / clear / visit / get_*_handles over kinds x keys {k1, k1' = equal key built statically with permuted labels, clones of that static key taken before / after its hash was first computed, k2, k3 = same shard}) on a fresh real Registry with a construction-counting Storage, compared after every step with a map reference (results, storage identity, construction count, both listings); shard counts 1, 2, 16 via CPU affinity; the same for a caller's own key type in which two different keys have the same 64-bit hash; 120 keys of one kind in one shard (the table grows several times), all earlier keys looked up after every registration; E1: all SC interleavings (pb-bounded) of 3 threads x 2 ops, brute-force linearizability against the same reference; distinct = distinct reference states / outcomes",
+        rule: "E3: every sequence up to the stated depth over 34 operations (get_or_create — also with an op closure that panics while the shard write lock is held, caught — / get / delete / retain / clear / visit / get_*_handles over kinds x keys {k1, k1' = equal key built statically with permuted labels, clones of that static key taken before / after its hash was first computed, k2, k3 = same shard}) on a fresh real Registry with a construction-counting Storage, compared after every step with a map reference (results, storage identity, construction count, both listings); shard counts 1, 2, 16 via CPU affinity; the same for a caller's own key type in which two different keys have the same 64-bit hash; 120 keys of one kind in one shard (the table grows several times), all earlier keys looked up after every registration; E1: all SC interleavings (pb-bounded) of 3 threads x 2 ops, brute-force linearizability against the same reference; distinct = distinct reference states / outcomes; E1 create-and-operate: three get-or-create(key, +5) calls on a valued storage (every access a scheduling point) against retain(value != 0), per kind: the calls see 5, 10, 15, one storage is built, the key ends at 15",
         assumptions: &["E1: sequential consistency; lock release is not a scheduling point of its own (the next operation of the releasing thread is)", "keys with pairwise distinct label names"],
         parts,
         run,
